@@ -96,8 +96,8 @@ impl World for SemaphoreWorld {
             if tier == Tier::Quick {
                 v.push((Cfg { flavour: FL_CHECKED, mode, x: 0, y: 2, k: 2 }, 64));
             } else {
-                for x in 0..=3u8 {
-                    v.push((Cfg { flavour: FL_CHECKED, mode, x, y: x + 3, k: 3 }, 200));
+                for (x, y) in [(0u8, 3u8), (1, 3), (2, 3), (3, 4)] {
+                    v.push((Cfg { flavour: FL_CHECKED, mode, x, y, k: 3 }, 200));
                 }
                 v.push((Cfg { flavour: FL_SHARED_CHECKED, mode, x: 1, y: 3, k: 2 }, 200));
             }
@@ -629,7 +629,7 @@ fn monitors<M: RawMutex>(
     // C01
     snap.clear();
     sem.snapshot(snap);
-    let views: Vec<SlotView> = slots
+    let views: Views = slots
         .iter()
         .enumerate()
         .map(|(i, s)| SlotView { queue: 0, idx: i as u8, range: s.range(), pending: s.pending(), woken: s.woken() })
